@@ -5,6 +5,7 @@
 //! function `fn(&Case, &Rec) -> Result<(), Fail>`; the same function is used by the replay path,
 //! which bypasses proptest entirely.
 
+pub mod alloc;
 pub mod refmath;
 pub mod rng;
 pub mod wire;
@@ -379,7 +380,7 @@ impl Ctx {
         C: Debug + Clone + Serialize,
     {
         let per_shard = (total_cases as usize + SHARDS - 1) / SHARDS;
-        let results: Vec<(Stats, Option<Violation>)> = std::thread::scope(|scope| {
+        let results: Vec<(Stats, Vec<Violation>)> = std::thread::scope(|scope| {
             let handles: Vec<_> = (0..SHARDS)
                 .map(|shard| {
                     scope.spawn(move || {
@@ -440,7 +441,7 @@ impl Ctx {
                                 None
                             }
                         };
-                        (rec.take(), viol)
+                        (rec.take(), viol.into_iter().collect())
                     })
                 })
                 .collect();
@@ -462,31 +463,31 @@ impl Ctx {
         C: Debug + Clone + Serialize + Sync,
     {
         let cases = &cases;
-        let results: Vec<(Stats, Option<Violation>)> = std::thread::scope(|scope| {
+        let results: Vec<(Stats, Vec<Violation>)> = std::thread::scope(|scope| {
             let handles: Vec<_> = (0..SHARDS)
                 .map(|shard| {
                     scope.spawn(move || {
                         let rec = Rec::new(self.tier, self.seed);
-                        let mut viol = None;
+                        let mut viols: Vec<Violation> = Vec::new();
                         for (i, c) in cases.iter().enumerate() {
                             if i % SHARDS != shard {
                                 continue;
                             }
                             rec.st.borrow_mut().cases += 1;
                             if let Err(fail) = call(f, c, &rec) {
-                                if !self.handle_fail(&rec, &fail) && viol.is_none() {
-                                    viol = Some(Violation {
+                                // an enumeration is run to the end; one case is kept per
+                                // distinct root-cause signature
+                                if !self.handle_fail(&rec, &fail) && viols.len() < 12 && !viols.iter().any(|v| v.fail.sig == fail.sig) {
+                                    viols.push(Violation {
                                         check: name.to_string(),
                                         fail,
                                         case: serde_json::to_value(c).unwrap_or(Value::Null),
                                         shard,
                                     });
-                                    // keep counting the remaining cases: an enumeration is
-                                    // reported complete or not at all
                                 }
                             }
                         }
-                        (rec.take(), viol)
+                        (rec.take(), viols)
                     })
                 })
                 .collect();
@@ -502,13 +503,13 @@ impl Ctx {
         exhaustive: bool,
         rule: &str,
         required: &[&str],
-        results: Vec<(Stats, Option<Violation>)>,
+        results: Vec<(Stats, Vec<Violation>)>,
     ) {
         let mut stats = Stats::default();
         let mut seen_sigs = HashSet::new();
-        for (st, v) in results {
+        for (st, vs) in results {
             stats.merge(st);
-            if let Some(v) = v {
+            for v in vs {
                 if seen_sigs.insert(v.fail.sig.clone()) {
                     self.violations.lock().unwrap().push(v);
                 }
